@@ -647,7 +647,9 @@ def encode_history(groups):
 def run_model(ctx, items, full):
     """items: list of case dicts.  Returns per item either the list of per-group observations (full) or the
     summary (all_safe, heaps, roots)."""
-    nshard = 8      # every coqc pays a fixed start-up + first-vm_compute cost: fewer, larger files
+    # every coqc pays a fixed start-up + first-vm_compute cost: fewer, larger files - but at most ~400 histories per file, so that
+    # a thorough-tier run (tens of thousands of histories) stays inside the per-file time limit also on a loaded machine
+    nshard = max(8, (len(items) + 399) // 400)
     files = []
     fn = "trace_h" if full else "summary_h"
     for s in range(nshard):
@@ -985,15 +987,22 @@ META = {
                   "a live heap is covered by a chain of heap references, every value a held object exposes is covered by a heap it "
                   "holds, every strong count covers its holders' is preserved by EVERY operation (build/evaluate with globals, load, "
                   "import_public_symbols, define/re-export, freeze with carry-over of the mutable half's references, get_owned, map, "
-                  "add_to_heap, globals builder/build, module from globals, clone, drop), hence holds after every history, hence for "
+                  "add_to_heap, globals builder/build, module from globals, clone, drop, and CARRIERS = frozen heaps in which nothing is "
+                  "allocated and that only record references: FrozenHeap::new / GlobalsBuilder::new, add_to_frozen_heap / frozen_edge / "
+                  "add_reference into them, sealing by into_ref / into_ref_named / OwnedFrozen::build / GlobalsBuilder::build with the "
+                  "'empty heap' shortcut of into_ref_impl exactly as the code has it: only when arena AND reference list are empty), "
+                  "hence holds after every history, hence for "
                   "every drop order everything reachable from a still-held object lives in a heap that has not been released "
                   "(C13_live_reachable_intact), and permuting drops changes neither what remains held nor what it reaches "
                   "(C13_drop_order_irrelevant). Removing any one add_reference site from the model yields a concrete use-after-free "
-                  "(8 theorems). What the model cannot exhibit - reuse of arena chunks shared between consecutive heaps of a thread, "
+                  "(8 theorems), and so does weakening the shortcut of into_ref_impl to 'arena empty' "
+                  "(C13_seal_refs_check_needed[_chain|_globals]: a re-homed handle, also through two carriers, also as a Globals, reaches a "
+                  "released heap; C13_seal_step_weak_breaks_wf: the invariant is not preserved). What the model cannot exhibit - reuse of arena chunks shared between consecutive heaps of a thread, "
                   "unsafe lifetime/brand casts, cross-thread atomicity - is only SEARCHED: the real library replays random histories "
                   "with freed arenas poisoned, every reachable value re-encoded and every reachable function re-called after every "
                   "operation, drops on other threads, in child processes whose crashes are caught; the real FrozenHeapRef::refs() "
-                  "graph is compared with the model's reference lists after every operation.",
+                  "graph (of every held module / globals heap AND of the owner of every held handle, carriers included) is compared with the "
+                  "model's reference lists after every operation.",
     "level_note": "Trusted: Coq kernel; hook H2 (poison on Arena::drop); harness bin heaps + sv_harness::enc; the Python history "
                   "generator; vm_compute replay of the model. Modelled, not verified: the abstraction of values to their heap; the "
                   "merge of an open module's two heaps into one model heap; exactness of release (the count invariant is "
